@@ -89,6 +89,17 @@ CHECKS = {
              "image. Evidence reports per rule how many pairs exercised it.",
         note="Trusted: the soundness of each rewrite rule in vf/render.py / c10.corpus_edits (each is one the property names).",
         design="4/C10"),
+    "C11": dict(
+        category="exploration",
+        technique="Hypothesis programs with planned name reuse across scopes, files and include trees, differential against the reference resolution rule",
+        text="A planning generator decides which file instance (1-3 linked files, include trees to depth 3) defines and exports which of four "
+             "deliberately reused names (private, '::', '==', '.extern name' before/after, '.extern all' before/middle/after) and reuses "
+             "three local-label numbers in many scopes; references come from bytes, immediates, words, relative and indexed operands, "
+             "before and after definitions and exporting files, with and without a leading .link (eager and late evaluation). 10% of the "
+             "programs carry one planted fault (invisible reference, duplicate definition, duplicate export). The reference assembler "
+             "implements the property's resolution rule and predicts image, every symbol value, or the error identifier.",
+        note="Trusted: the resolution rule in vf/model.py (lookup / export / build_block).",
+        design="4/C11"),
     "C12": dict(
         category="exploration",
         technique="Hypothesis link-expression programs, differential against a reference assembler with affine base tracking",
